@@ -89,7 +89,8 @@ def escape_table(ctx, drv):
 def run(ctx):
     ctx.rule = ('texts from: grammar of lines with each field independently valid/invalid; all token sequences up to a '
                 'length bound over an 18-token alphabet; mutations of valid Manifests; full escape-form table; sampled sequences of the '
-                'line classes of the cleartext-signature framework (dash-escaped armor lines inside the body, junk after them). '
+                'line classes of the cleartext-signature framework (dash-escaped armor lines inside the body, junk after them); byte '
+                'sequences that are not UTF-8 inserted into valid Manifests stored plain and under every codec. '
                 'non-trivial = distinct text on which the parser produced at least one entry or an error')
     ctx.assumptions = ['numeric fields containing non-ASCII decimal digits: model abstains, only the exception-class oracle applies']
     ctx.tmp = common.scratch_dir()
@@ -120,6 +121,40 @@ def run(ctx):
             combo, text = gen_text.framework_text(ctx.rng, 3, 12)
             mode = ctx.rng.choice(['stringio', 'file'])
             compare_load(ctx, drv, text, mode, 'framework')
+        # bytes that are not UTF-8, in plain and in compressed Manifests (every codec): rejected as a syntax error, whatever the
+        # storage format
+        from gemato.compression import open_potentially_compressed_path
+        import gemato.manifest as gm
+        for i in range(200 if ctx.tier == 'quick' else 4000):
+            es = gen_text.rand_entries(ctx.rng) or [gen_text.rand_entry(ctx.rng)]
+            base = textimpl.impl_dump(es)
+            if 'err' in base:
+                continue
+            raw = bytearray(common.uncps(base['text']).encode('utf8', 'surrogatepass'))
+            try:
+                bytes(raw).decode('utf8')
+            except UnicodeDecodeError:
+                continue
+            pos = ctx.rng.randrange(len(raw) + 1)
+            raw[pos:pos] = ctx.rng.choice([b'\xff', b'\xc0\xaf', b'\xe2\x82', b'\x80', b'\xf8\x88\x80\x80\x80'])
+            suffix = ctx.rng.choice(['', '.gz', '.bz2', '.lzma', '.xz'])
+            pth = os.path.join(ctx.tmp, 'Manifest' + suffix)
+            with open_potentially_compressed_path(pth, 'wb') as f:
+                f.write(bytes(raw))
+            m = gm.ManifestFile()
+            try:
+                with open_potentially_compressed_path(pth, 'r', encoding='utf8') as f:
+                    m.load(f, verify_openpgp=False)
+                out = {'entries': len(m.entries)}
+            except Exception as e:
+                out = {'err': textimpl.classify_exc(e)}
+            finally:
+                os.unlink(pth)
+            scen = {'op': 'load_bytes', 'suffix': suffix, 'bytes': list(raw)}
+            ctx.count('stream:invalid-utf8' + suffix)
+            ctx.case(json.dumps(scen)[:20000], True, {'suffix': suffix, 'outcome': out})
+            if out.get('err') != 'syntax':
+                ctx.fail('malformed-accepted' if 'err' not in out else 'internal-error', scen, json.dumps(out))
         n_mut = 2000 if ctx.tier == 'quick' else 40000
         for i in range(n_mut):
             es = gen_text.rand_entries(ctx.rng)
